@@ -9,7 +9,7 @@ From ReqV Require Import Model.Lifecycle.
 Import ListNotations.
 
 Inductive cst2 := CSel | CWaitDone | CAbortWait (e : err) | CRet (r : callres).
-Inductive dst2 := DAcquire | DHdr | DBody | DWait | DExit.
+Inductive dst2 := DAcquire | DHdr | DExpect | DBody | DWait | DExit.
 Inductive rstk := RstCancel | RstNoError.
 
 Record h2 := mkH2 {
@@ -29,10 +29,10 @@ Record h2 := mkH2 {
 }.
 
 Inductive label2 :=
-| YAcquired | YHdrWritten | YBodyWritten | YResp (b : bool) | YData | YEnd | YReadEOF | YPeerRst
+| YAcquired | YHdrWritten | YHdrExpect | Y100 | YBodyWritten | YResp (b : bool) | YData | YEnd | YReadEOF | YPeerRst
 | YCancel (c : cause)
 | JResp | JAbort | JCtx | JDone | JDoneCtx
-| KCtx | KAbort | KPeerEnd | KPipe.
+| KCtx | KAbort | KPeerEnd | KPipe | KCtxAbort.
 
 (* has_body: the request has a body (actualContentLength != 0) *)
 Definition init2 : h2 := mkH2 CSel DAcquire None None false false None false None false false BNone false.
@@ -79,6 +79,13 @@ Definition step2 (has_body : bool) (s : h2) (l : label2) : option h2 :=
       | DHdr, None, None => Some (if has_body then upd_d s DBody true false else upd_d s DWait true true)
       | _, _, _ => None
       end
+  | YHdrExpect =>      (* HEADERS with Expect: 100-continue written: wait for 100 / the timer / abort / ctx *)
+      match d2 s, ctx2 s, abort2 s with
+      | DHdr, None, None => if has_body then Some (upd_d s DExpect true false) else None
+      | _, _, _ => None
+      end
+  | Y100 =>            (* 100 Continue (or the ExpectContinueTimeout) : the body is sent *)
+      match d2 s, abort2 s with DExpect, None => Some (upd_d s DBody true false) | _, _ => None end
   | YBodyWritten =>
       match d2 s, abort2 s with DBody, None => Some (upd_d s DWait true true) | _, _ => None end
   | YResp b =>
@@ -142,8 +149,8 @@ Definition step2 (has_body : bool) (s : h2) (l : label2) : option h2 :=
       match ctx2 s with
       | Some c =>
           match d2 s with
-          | DAcquire | DHdr | DWait => Some (cleanup has_body false (Some (ECause c)) s)
-          | _ => None                        (* writeRequestBody is woken by abort only *)
+          | DAcquire | DHdr | DExpect | DWait => Some (cleanup has_body false (Some (ECause c)) s)
+          | _ => None                        (* writeRequestBody is woken by abort only: KCtxAbort *)
           end
       | None => None
       end
@@ -151,13 +158,21 @@ Definition step2 (has_body : bool) (s : h2) (l : label2) : option h2 :=
       match abort2 s with
       | Some e =>
           match d2 s with
-          | DHdr | DBody | DWait => Some (cleanup has_body (failed2 s) (Some e) s)
+          (* DAcquire: awaitOpenSlotForStream is woken by abortStream's broadcast *)
+          | DAcquire | DHdr | DExpect | DBody | DWait => Some (cleanup has_body (failed2 s) (Some e) s)
           | _ => None
           end
       | None => None
       end
   | KPeerEnd =>
       match d2 s, peer_end s with DWait, true => Some (cleanup has_body false None s) | _, _ => None end
+  | KCtxAbort =>
+      (* context.AfterFunc around writeRequestBody: the end of the context aborts the stream, which
+         wakes the wait for flow-control credit *)
+      match d2 s, ctx2 s, abort2 s with
+      | DBody, Some c, None => Some (abort_stream has_body (ECause c) s)
+      | _, _, _ => None
+      end
   | KPipe =>
       match d2 s, pipe2 s, abort2 s, peer_end s with
       | DExit, BOpen, Some e, false => Some (upd_pipe s (BErr e))
@@ -165,7 +180,7 @@ Definition step2 (has_body : bool) (s : h2) (l : label2) : option h2 :=
       end
   end.
 
-Definition internals2 : list label2 := [JResp; JAbort; JCtx; JDone; JDoneCtx; KCtx; KAbort; KPeerEnd; KPipe].
+Definition internals2 : list label2 := [JResp; JAbort; JCtx; JDone; JDoneCtx; KCtx; KAbort; KPeerEnd; KPipe; KCtxAbort].
 
 Fixpoint run2 (hb : bool) (s : h2) (ls : list label2) : option h2 :=
   match ls with
